@@ -29,6 +29,7 @@ type HarnessSpec struct {
 	TimeoutT  int            `json:"timeout_thorough,omitempty"`
 	Note      string         `json:"note,omitempty"`
 	Optional  bool           `json:"optional,omitempty"` // white-box harness: skipped when it does not compile against the tree
+	Steps     int            `json:"steps,omitempty"` // per-path instruction budget (concrete long runs); 0 = the tier's default
 	BestEffort bool          `json:"best_effort,omitempty"` // beyond-the-bound supplement: an unfinished exploration is recorded, not INCONCLUSIVE
 }
 
@@ -363,6 +364,10 @@ func cmdCheck(args []string) int {
 			}
 		}
 		g.cfg.Symmetry = !hs.NoSymmetry
+		g.cfg.StepBudget = cfg.StepBudget
+		if hs.Steps > 0 {
+			g.cfg.StepBudget = hs.Steps
+		}
 		maxW := 8
 		if tier == "thorough" {
 			maxW = 24
